@@ -68,12 +68,14 @@ def enabled (s : St) (a : Act) (r : Req) : Bool :=
 /-- effect of an action on the record -/
 def upd (s : St) (a : Act) (r : Req) : Req :=
   match a with
-  | .start => if (holder s r.tag).isSome then { r with phase := .dropped } else { r with phase := .handling }
+  | .start =>
+    -- a Tflush is handled without registering its tag (the D19 `fix:`): never dropped, never a holder
+    if r.flushOf.isSome then { r with phase := .handling }
+    else if (holder s r.tag).isSome then { r with phase := .dropped } else { r with phase := .handling }
   | .waitTag =>
-    if r.flushOf = some r.tag then { r with waited := true }                    -- own tag: nothing to wait for
-    else match r.flushOf.bind (holder s) with
-      | some j => { r with phase := .waitingFlush, awaiting := some j }
-      | none => { r with waited := true }                                        -- idle / already answered
+    match r.flushOf.bind (holder s) with
+    | some j => { r with phase := .waitingFlush, awaiting := some j }
+    | none => { r with waited := true }                                          -- idle / answered / a Tflush
   | .wake => { r with phase := .handling, waited := true }
   | .enter => { r with inBackend := true }
   | .leave => { r with inBackend := false }
@@ -89,7 +91,7 @@ def step (s : St) : Label → Option St
       if enabled s a r then
         some { reqs := s.reqs.set i (upd s a r),
                active := (match a with
-                 | .start => if (holder s r.tag).isSome then s.active else (r.tag, i) :: s.active
+                 | .start => if r.flushOf.isSome || (holder s r.tag).isSome then s.active else (r.tag, i) :: s.active
                  | .finish => s.active.filter (·.2 != i)
                  | _ => s.active),
                out := (match a with
@@ -121,7 +123,7 @@ theorem upd_replied (s : St) (a : Act) (r : Req) (h : enabled s a r = true) :
   cases a <;> simp only [enabled, Bool.and_eq_true, beq_iff_eq] at h <;> simp only [upd]
   case send => left; simp_all
   all_goals right
-  case start => refine ⟨by simp, by simp [h], ?_⟩; split <;> simp
+  case start => refine ⟨by simp, by simp [h], ?_⟩; (repeat' split) <;> simp
   case waitTag => refine ⟨by simp, by simp [h.1.1], ?_⟩; (repeat' split) <;> simp [h.1.1]
   case wake => exact ⟨by simp, by simp [h.1], by simp⟩
   case enter => exact ⟨by simp, by simp [h.1.1], by simp [h.1.1]⟩
@@ -142,7 +144,7 @@ theorem upd_inBackend (s : St) (a : Act) (r : Req) (h : enabled s a r = true)
     (upd s a r).inBackend = true → (upd s a r).phase = .handling ∧ (upd s a r).flushOf = none := by
   cases a <;> simp only [enabled, Bool.and_eq_true, beq_iff_eq, Bool.not_eq_true', Option.isNone_iff_eq_none] at h <;>
     simp only [upd]
-  case start => split <;> (intro hb; have := hr hb; simp_all)
+  case start => (repeat' split) <;> (intro hb; have := hr hb; simp_all)
   case waitTag =>
     (repeat' split) <;> (intro hb; have := hr (by simpa using hb); simp_all)
   case wake => intro hb; have := hr (by simpa using hb); simp_all
